@@ -1,0 +1,80 @@
+package value
+
+import (
+	"math"
+	"math/big"
+)
+
+// Exact comparison of integers with binary floating point numbers.
+//
+// Converting the integer to float64 first rounds it (every int64 above 2^53
+// loses its low bits), which makes mixed comparisons inconsistent with the
+// comparisons between integers: `2**53 + 1 > (2**53).to_float` was false
+// and `=~` was not transitive. These helpers never round.
+
+// Compares i with f exactly. f must not be NaN.
+//
+//	-1 if i <  f
+//	 0 if i == f
+//	+1 if i >  f
+func CmpInt64Float64(i int64, f float64) int {
+	if f >= 9223372036854775808.0 { // 2^63, also +Inf
+		return -1
+	}
+	if f < -9223372036854775808.0 { // below -2^63, also -Inf
+		return 1
+	}
+	// -2^63 <= f < 2^63: the integer part of f fits in int64
+	t := math.Trunc(f)
+	ti := int64(t)
+	if i < ti {
+		return -1
+	}
+	if i > ti {
+		return 1
+	}
+	// i is the integer part of f, compare with the fractional part
+	if f > t {
+		return -1
+	}
+	if f < t {
+		return 1
+	}
+	return 0
+}
+
+// Compares u with f exactly. f must not be NaN.
+func CmpUint64Float64(u uint64, f float64) int {
+	if f >= 18446744073709551616.0 { // 2^64, also +Inf
+		return -1
+	}
+	if f < 0 {
+		return 1
+	}
+	// 0 <= f < 2^64: the integer part of f fits in uint64
+	t := math.Trunc(f)
+	ti := uint64(t)
+	if u < ti {
+		return -1
+	}
+	if u > ti {
+		return 1
+	}
+	if f > t {
+		return -1
+	}
+	return 0
+}
+
+// Compares i with f exactly. f must not be NaN.
+func CmpBigIntFloat64(i *big.Int, f float64) int {
+	if math.IsInf(f, 1) {
+		return -1
+	}
+	if math.IsInf(f, -1) {
+		return 1
+	}
+	// both conversions are exact: SetInt uses a precision of at least the bit length of i,
+	// SetFloat64 a precision of 53 bits
+	return (&big.Float{}).SetInt(i).Cmp((&big.Float{}).SetFloat64(f))
+}
